@@ -11,6 +11,7 @@ import (
 	"encoding/json"
 	"fmt"
 	"math/rand"
+	"os"
 	"path/filepath"
 	"sort"
 	"strings"
@@ -134,6 +135,22 @@ func (x *runner) exec(r string) bool {
 		rp.c.AuthorityJSON(a)
 	}
 	raw := b.RawTxs()
+	if strings.HasSuffix(r, "2") && rp.next > 1 {
+		// Every second replica is a node that also serves gas estimation: before it executes
+		// the block it SIMULATES the block's transactions, last first, each on the committed
+		// state of the previous block.  Simulation runs the message handlers on a throw-away
+		// branch; on a correct node it leaves no trace (C11: nothing depends on process-local
+		// caches), so all replicas must still agree.
+		for i := len(raw) - 1; i >= 0; i-- {
+			func() {
+				defer func() { _ = recover() }()
+				_, _, err := rp.c.App.Simulate(raw[i])
+				if os.Getenv("VERIF_DEBUG") != "" {
+					fmt.Fprintln(os.Stderr, "simulate", b.Height, i, err)
+				}
+			}()
+		}
+	}
 	res := rp.c.RunRawBlock(b.Height, time.Unix(0, b.UnixNs).UTC(), raw)
 	e := ev("Exec", x.proc+r, b.Height)
 	e["ntx"] = int64(len(raw))
